@@ -220,14 +220,34 @@ def rerender(rnd, text):
     return text
 
 
+def add_fds(rnd, args):
+    """the same arguments with one or two unix fd arguments put in (they shift the later argument numbers)"""
+    args = list(args)
+    for _ in range(rnd.choice((1, 1, 2))):
+        args.insert(rnd.randrange(len(args) + 1) if rnd.random() < 0.4 else len(args), ["h"])
+    return args
+
+
+def add_fds_n(rnd, args, k):
+    args = list(args)
+    for _ in range(k):
+        args.insert(rnd.randrange(len(args) + 1), ["h"])
+    return args
+
+
 def gen_scenario(rnd, n_events=None, fault_p=0.08):
     fault_ok = rnd.random() < fault_p
     nconn = rnd.choice((2, 3, 3, 4))
     limit = rnd.choice((512, 512, 512, 2, 3, 4))
     ev = []
     live = []
+    fdcap = set()
     for c in range(1, nconn + 1):
-        ev.append(["hello", c])
+        if rnd.random() < 0.5:
+            ev.append(["hello", c, "fd"])
+            fdcap.add(c)
+        else:
+            ev.append(["hello", c])
         live.append(c)
     owned = {}
     for name in WK_NAMES:
@@ -270,14 +290,21 @@ def gen_scenario(rnd, n_events=None, fault_p=0.08):
             ev.append(["rm", c, t])
         elif r < 0.92:
             dests = ["{U%d}" % k for k in range(1, nxt)] + list(owned.keys()) + ["w.none", "{U9}"]
-            ev.append(["send", c] + gen_msg(rnd, dests))
+            msg = gen_msg(rnd, dests)
+            if c in fdcap and rnd.random() < 0.3:
+                msg[5] = add_fds(rnd, msg[5])
+            ev.append(["send", c] + msg)
         elif r < 0.96 and len(live) > 1:
             ev.append(["disc", c])
             live.remove(c)
             for n in [n for n, o in owned.items() if o == c]:
                 del owned[n]
         elif r < 0.98 and nxt < 7:
-            ev.append(["hello", nxt])
+            if rnd.random() < 0.5:
+                ev.append(["hello", nxt, "fd"])
+                fdcap.add(nxt)
+            else:
+                ev.append(["hello", nxt])
             live.append(nxt)
             nxt += 1
         else:
@@ -340,7 +367,7 @@ def gen_hole_pairs():
 
 
 def gen_directed(rnd):
-    fam = rnd.choice(("pns", "dups", "limit", "peer", "eaves", "fault", "pools", "quoting", "holes", "holes"))
+    fam = rnd.choice(("pns", "dups", "limit", "peer", "eaves", "fault", "pools", "quoting", "holes", "holes", "fds", "fds"))
     ev = [["hello", 1], ["hello", 2], ["hello", 3]]
     limit = 512
     if fam == "pns":
@@ -378,6 +405,37 @@ def gen_directed(rnd):
         ev.append(["rm", 1, held])
         ev += probes
         ev.append(["rm", 1, held])
+    elif fam == "fds":
+        # listeners with and without fd passing, rules added in both orders and in different (type, interface)
+        # pools, signals with 0 / 1 / 2 unix fds: a listener that cannot take the fds is skipped and nobody
+        # else is affected; a unicast with fds to an addressee that cannot take them reaches nobody
+        ev = []
+        caps = {}
+        for c in (1, 2, 3, 4):
+            caps[c] = rnd.random() < 0.5
+        if all(caps[c] for c in (1, 2, 3)):            # at least one listener without, one with
+            caps[1] = False
+        if not any(caps[c] for c in (1, 2, 3)):
+            caps[3] = True
+        caps[4] = True                                 # the sender
+        for c in (1, 2, 3, 4):
+            ev.append(["hello", c, "fd"] if caps[c] else ["hello", c])
+        pools = ["", "type='signal'", "interface='a.b'", "type='signal',interface='a.b'", "member='M'", "path_namespace='/a'"]
+        order = [1, 2, 3]
+        rnd.shuffle(order)
+        for c in order:
+            for _ in range(rnd.choice((1, 1, 2))):
+                ev.append(["add", c, rnd.choice(pools)])
+        if rnd.random() < 0.5:
+            ev.append(["add", rnd.choice(order), "eavesdrop='true'"])
+        for k in (1, 0, 2, 1):
+            args = add_fds_n(rnd, gen_args(rnd)[:2], k)
+            ev.append(["send", 4, 4, rnd.choice(("/a", "/a/b")), "a.b", "M", None, args])
+        ev.append(["rm", order[0], rnd.choice(pools)])
+        ev.append(["send", 4, 4, "/a", "a.b", "M", None, [["h"]]])
+        for dst in rnd.sample((1, 2, 3), 2):
+            ev.append(["send", 4, rnd.choice((1, 4)), "/a", "a.b", "M", "{U%d}" % dst, add_fds_n(rnd, [["s", "x"]], rnd.choice((1, 1, 0)))])
+        limit = 512
     elif fam == "dups":
         items = gen_items(rnd, fault_ok=False, eaves_ok=False)
         n = rnd.choice((2, 3))
